@@ -33,6 +33,15 @@ type c33event struct {
 
 func (e *c33event) ID() hash.Event { return e.id }
 
+// a handle on a persistent, name-keyed database: Close leaves the data where it is, Drop erases it
+type c33persistent struct {
+	kvdb.Store
+	drop func()
+}
+
+func (d *c33persistent) Close() error { return nil }
+func (d *c33persistent) Drop()        { d.drop() }
+
 type c33source struct{}
 
 func (c33source) HasEvent(hash.Event) bool      { return false }
@@ -58,9 +67,12 @@ func c33RunRaw(in []string) (obs []string) {
 		}
 	}
 	groups = append(groups, cur)
-	if len(groups[0]) != 2 {
+	if len(groups[0]) != 2 && len(groups[0]) != 3 {
 		panic("bad header")
 	}
+	// third header token "P": the epoch DB producer hands out PERSISTENT databases keyed by the
+	// epoch number (like an on-disk "epoch-N"): Close keeps the data, only Drop erases it
+	persistent := len(groups[0]) == 3 && groups[0][2] == "P"
 	num, _ := strconv.ParseUint(groups[0][0], 10, 64)
 	frames, _ := strconv.Atoi(groups[0][1])
 
@@ -83,6 +95,15 @@ func c33RunRaw(in []string) (obs []string) {
 	mainDB := memorydb.New()
 	epochDBs := map[idx.Epoch]kvdb.Store{}
 	producer := func(e idx.Epoch) kvdb.Store {
+		if persistent {
+			vu.Stat("persistent_producer_open")
+			db, ok := epochDBs[e]
+			if !ok {
+				db = memorydb.New()
+				epochDBs[e] = db
+			}
+			return &c33persistent{Store: db, drop: func() { delete(epochDBs, e) }}
+		}
 		if db, ok := epochDBs[e]; ok {
 			return db
 		}
@@ -179,7 +200,9 @@ func c33RunRaw(in []string) (obs []string) {
 			// Reset drops the current epoch DB (dropEpochDB) and opens the DB of the target epoch:
 			// the next number (R), the SAME number again (RS) or a lower one (RL).  A dropped
 			// database is gone: the producer makes a new, empty one when that number is opened again.
-			delete(epochDBs, epoch)
+			if !persistent {
+				delete(epochDBs, epoch)
+			}
 			switch o[0] {
 			case "R":
 				epoch++
@@ -286,9 +309,19 @@ func init() {
 						";", "A", "1", "2", "3", c33ids[5], ";", "G", "2", ";", "B", ";", "G", "3", ";", "G", "1", ";", "G", "2", ";", "R", ";", "G", "1", ";", "G", "2", ";", "A", "0", "1", "4", c33ids[2], ";", "G", "1")
 				}
 			}
-			// epoch switch to the same / a lower epoch number while frames with roots are cached
+			// epoch switch to the same / a lower epoch number while frames with roots are cached;
+			// with a fresh-DB-per-open producer and with a persistent name-keyed producer ("P")
 			for _, a := range nums {
 				for _, b := range frs {
+					for _, k := range [][]string{{"RS"}, {"RL"}, {"R", ";", "RL"}, {"RS", ";", "RS"}, {"R", ";", "R", ";", "RL", ";", "RL"}} {
+						in := []string{strconv.Itoa(a), strconv.Itoa(b), "P", ";", "A", "0", "2", "1", c33ids[1], ";", "A", "1", "2", "2", c33ids[6], ";"}
+						if (a+b)%2 == 0 {
+							in = append(in, "G", "1", ";", "G", "2", ";")
+						}
+						in = append(in, k...)
+						in = append(in, ";", "G", "1", ";", "G", "2", ";", "A", "0", "1", "3", c33ids[3], ";", "G", "1", ";", "B", ";", "G", "1", ";", "G", "2")
+						emit(in...)
+					}
 					for _, k := range [][]string{{"RS"}, {"RL"}, {"RS", ";", "RS"}, {"R", ";", "RL"}, {"R", ";", "RS"}, {"RL", ";", "R"}} {
 						in := []string{strconv.Itoa(a), strconv.Itoa(b), ";", "A", "0", "2", "1", c33ids[1], ";", "A", "1", "2", "2", c33ids[6],
 							";", "G", "1", ";", "G", "2", ";"}
@@ -340,6 +373,9 @@ func init() {
 			for i := 0; i < n; i++ {
 				a, b := nums[r.Intn(len(nums))], frs[r.Intn(len(frs))]
 				in := []string{strconv.Itoa(a), strconv.Itoa(b)}
+				if r.Intn(3) == 0 {
+					in = append(in, "P")
+				}
 				in = append(in, c33GenOps(r, 1+r.Intn(40))...)
 				emit(in...)
 			}
